@@ -130,12 +130,15 @@ def gen_cases(tier, seed):
             cases.append(dict(kind="rollout_helper", end=k,
                               length=int(rng.integers(1, 9)),
                               seed=int(rng.integers(1 << 20)), cost=1))
-        for sched in ("uts", "smt", "smt", "amt", "amt_rr"):
-            for base in (("td3", "sac") if sched == "uts" else ("ddpg", "td3")):
+        for sched in ("uts", "smt", "smt", "amt", "amt_rr", "amt_rr", "amt"):
+            for bi, base in enumerate(("td3", "sac") if sched == "uts"
+                                      else ("ddpg", "td3")):
                 cases.append(dict(
                     kind="sched", sched=sched, base=base,
                     n_tasks=int(rng.integers(1, 6)),
-                    interval=int(rng.integers(1, 3)),
+                    # rounds of 1, 2 and 3 episodes: with more than one episode
+                    # per round the budget usually ends inside a round
+                    interval=1 + (len(cases) + bi) % 3,
                     budget=int(rng.integers(35, 70)),
                     scripts=[make_script(rng, 3) for _ in range(5)],
                     vector=bool(rng.integers(2)),
